@@ -78,6 +78,40 @@ func (e *Engine) oblige(st *State, name string, goal *Term, note string) {
 		return
 	}
 	pc := append([]*Term{}, st.pc...)
+	// quantified subformulas of the goal that became closed (inner quantifiers of skolemised ones) are named like
+	// hypotheses are, and instantiated at the reads made so far: where they occur negatively in the goal they are
+	// hypotheses of the query (an existential goal is proved from the instance at its witness)
+	if g2 := liftInner(goal); g2 != goal {
+		goal = g2
+		names := map[string]bool{}
+		for _, n := range qfNames(goal) {
+			if !st.qfActive[n] {
+				names[n] = true
+			}
+		}
+		if len(names) > 0 {
+			qfMu.Lock()
+			fs := append([]*QFact{}, allQFacts...)
+			qfMu.Unlock()
+			seenI := map[string]bool{}
+			for _, f := range fs {
+				if !names[f.QF.Leaf] {
+					continue
+				}
+				for _, rd := range st.readLog {
+					if rd.key != f.Key {
+						continue
+					}
+					inst := Implies(f.QF, subst(f.Body, f.BV.Leaf, Sub(rd.abs, f.Shift)))
+					if k := inst.String(); !seenI[k] {
+						seenI[k] = true
+						auxTerms.Store(inst, true)
+						pc = append(pc, inst)
+					}
+				}
+			}
+		}
+	}
 	pc = append(pc, e.defAxioms(st, append(append([]*Term{}, pc...), goal))...)
 	if goal.Op == "and" && os.Getenv("GOVC_SPLIT") != "" {
 		for k, g := range goal.Args {
@@ -2311,6 +2345,29 @@ func mapKeyTerm(v Val) *Term {
 	case *Term:
 		return x
 	case ArrayV:
+		// the bytes of one wide term, most significant first (a key obtained from an iteration or a quantifier and
+		// handed on unchanged): that term itself
+		if len(x.E) > 0 {
+			var src *Term
+			okAll := true
+			n := len(x.E)
+			for j, el := range x.E {
+				b, isT := el.(*Term)
+				if !isT || b.C != nil || len(b.Args) != 1 || b.Op != fmt.Sprintf("(_ extract %d %d)", 8*(n-j)-1, 8*(n-j)-8) {
+					okAll = false
+					break
+				}
+				if src == nil {
+					src = b.Args[0]
+				} else if src.String() != b.Args[0].String() {
+					okAll = false
+					break
+				}
+			}
+			if okAll && src != nil && src.W == 8*n {
+				return src
+			}
+		}
 		var t *Term
 		for _, el := range x.E {
 			b := asTerm(el)
@@ -2519,6 +2576,7 @@ func (e *Engine) mapNext(st *State, fr *Frame, i *ssa.Next) Val {
 	qf := &Term{Leaf: fresh("qf"), W: 0, QDef: Forall(bv, body)}
 	registerQFacts(qf, bv, body, nil)
 	st.assumeT(Implies(Not(okT), qf))
+	st.iterKeys = append(st.iterKeys[:len(st.iterKeys):len(st.iterKeys)], k)
 	st.instantiate(fmt.Sprintf("map|%d", it.Map), k)
 	st.instantiateLoose(k)
 	ns := Store(it.Seen, k, tTrue)
@@ -2540,7 +2598,9 @@ func (e *Engine) mapNext(st *State, fr *Frame, i *ssa.Next) Val {
 	var vv Val
 	switch u := m.ValT.Underlying().(type) {
 	case *types.Slice:
-		comp := func(c string) *Term { return Select(m.Vals[c], k, 64) }
+		// (the same term shape as a lookup m[k], so that facts stated through lookups are found syntactically)
+		present := Select(m.Dom, k, 0)
+		comp := func(c string) *Term { return Ite(present, Select(m.Vals[c], k, 64), BVu(0, 64)) }
 		sl := SliceV{Base: comp("base"), Off: comp("off"), Len: comp("len"), Cap: comp("cap"), Elem: u.Elem()}
 		zero, lim := BVu(0, 64), BVu(1<<40, 64)
 		st.assumeT(Implies(okT, And(SLe(zero, sl.Off), SLt(sl.Off, lim), SLe(zero, sl.Len), SLe(sl.Len, sl.Cap), SLt(sl.Cap, lim),
